@@ -418,6 +418,7 @@ func c09Effects(c *Ctx, g *load.G) {
 	cloneKeepsFields(c, g, "C09-h")
 	optimizerUnwraps(c, g, "C09-i")
 	classTextIsDisplayOnly(c, g, "C09-j")
+	optimizerInlineKeepsLabelScope(c, g, "C09-k")
 	// (6) duplicate removal keeps every distinct member
 	cf := load.FuncDecl(ap, "grammarOptimizer", "cleanupCharClassMatcher")
 	if cf != nil {
